@@ -392,7 +392,7 @@ fn pair_of_slot(n: usize, k: usize) -> (usize, usize) {
 }
 
 pub fn c07(ctx: &Ctx, rep: &mut Report) {
-    rep.rule = "probe matrices: all ones, slot k = 0.25, slot k2 = 0.5; quick: every slot k for n <= 24 (k2 random), thorough: every slot for n <= 64 plus random slots for n up to 3000; first step must merge pair(k) at 0.25, under single the second step joins the clusters of pair(k2) at 0.5".into();
+    rep.rule = "probe matrices: all ones, slot k = 0.25, slot k2 = 0.5; quick: every slot k for n <= 24 (k2 random), thorough: every slot for n <= 64; all five entry points on structured (row starts/ends, 32-column block boundaries, last column) and random slots for n in 32..130; random slots for n up to 3000 (mst, linkage); first step must merge pair(k) at 0.25, under single the second step joins the clusters of pair(k2) at 0.5".into();
     let mut rng = Rng::new(ctx.seed);
     let mut cases = vec![];
     let mut meta: Vec<(usize, usize)> = vec![];
@@ -434,6 +434,42 @@ pub fn c07(ctx: &Ctx, rep: &mut Report) {
     for n in 2..=max_full {
         for k in 0..gen::tri(n) {
             push(&mut cases, &mut meta, &mut rng, n, k, n <= 12 || k % 7 == 0);
+        }
+    }
+    // mid-range sizes around block boundaries (32, 64, 128 entries per row / observations), ALL entry
+    // points: row ends, row starts, last column, first and last slots, and random slots
+    for &n in &[31usize, 32, 33, 34, 40, 50, 63, 64, 65, 66, 70, 97, 127, 128, 129, 130] {
+        if !ctx.thorough && (n == 31 || n == 63 || n == 66 || n == 127 || n == 130) {
+            continue;
+        }
+        let len = gen::tri(n);
+        let mut slots: Vec<usize> = vec![0, 1, len - 1, len - 2, n - 2, n - 1];
+        // slots (0, c) for a spread of columns, (r, r+1) and (r, n-1) for a spread of rows
+        let mut off = 0usize;
+        for r in 0..n - 1 {
+            let row_len = n - 1 - r;
+            if r < 3 || r % 9 == 0 || r + 3 >= n {
+                slots.push(off);
+                slots.push(off + row_len - 1);
+                slots.push(off + row_len / 2);
+                if row_len > 32 {
+                    slots.push(off + 31);
+                    slots.push(off + 32);
+                    slots.push(off + 32 * (row_len / 32));
+                    slots.push(off + 32 * (row_len / 32) - 1);
+                }
+            }
+            off += row_len;
+        }
+        for _ in 0..(if ctx.thorough { 200 } else { 40 }) {
+            slots.push(rng.below(len as u64) as usize);
+        }
+        slots.sort_unstable();
+        slots.dedup();
+        for k in slots {
+            if k < len {
+                push(&mut cases, &mut meta, &mut rng, n, k, true);
+            }
         }
     }
     let big = if ctx.thorough { 400 } else { 30 };
